@@ -48,6 +48,8 @@ def plan(tier, seed):
     units = [{"kind": "op", "start": s, "stop": min(n, s + step), "w": step} for s in range(0, n, step)]
     units += [{"kind": "sim", "start": s, "stop": min(nsim, s + step), "w": step * 0.5} for s in range(0, nsim, step)]
     units.append({"kind": "even", "w": 1})
+    if tier == "thorough":
+        units.append({"kind": "suite", "w": 10 ** 7})   # the repository's own tests with the contracts installed (DESIGN 1.5)
     return units
 
 
@@ -75,6 +77,11 @@ def post_convolve_matrix(ctx, a, result, old):
 
 def setup(ctx):
     ctx.aa = env.boot("base")
+    install_contracts(ctx)
+
+
+def install_contracts(ctx):
+    """Also used by harness/suite_plugin.py (the repository's own tests drive the contract in the thorough tier)."""
     contracts.attach(ctx, ctx.aa.Convolver, "convolve_matrix_jit", post_convolve_matrix,
                      label="contract:Convolver.convolve_matrix_jit")
 
